@@ -716,6 +716,18 @@ pub fn run(tier: Tier) -> RunOutcome {
                     }
                 };
                 trace.push(format!("Solve(cut {})->{:?}@{}", cut, snap.status, snap.iterations));
+                // ---- (3) the linear system this solve factorised was built from the data the
+                // residuals saw (a solve cut before its first KKT update has not used it)
+                if snap.iterations >= 1 {
+                    probe("c08_kkt_checked_after_solve");
+                    if let Err(e) = kkt_in_sync(&solver, &base) {
+                        out.violations.push(Violation::new(
+                            "C08.kkt_out_of_sync",
+                            format!("after [{}]: {}", trace.join("; "), e),
+                        ));
+                        break;
+                    }
+                }
                 if dirty {
                     n_solves_after_update += 1;
                 }
@@ -1138,14 +1150,9 @@ pub fn run(tier: Tier) -> RunOutcome {
                         }
                     }
                 }
-                // ---- (3) KKT copy in sync with the data
-                if let Err(e) = kkt_in_sync(&solver, &base) {
-                    out.violations.push(Violation::new(
-                        "C08.kkt_out_of_sync",
-                        format!("after {}: {}", desc, e),
-                    ));
-                    break;
-                }
+                // (3) the KKT copy is judged after the next solve that used it: when an
+                // implementation pushes accepted values into the KKT system (at the update,
+                // or at the first KKT use of the next solve) is its own business
             }
         }
     }
